@@ -113,9 +113,15 @@ def c01(obs, act, viols, probes):
         if (p[1] == 'ERROR' and p[3] == 'TIMEOUT' and later_same and ph is not None
             and ph['opts']['repeat_on_timeout']):
           causes.add('timeout_invocation_retried')
+        elif (p[1] == 'ERROR' and p[3] == 'TIMEOUT' and ph is not None and ph['opts']['repeat_on_timeout']
+              and [e[6] for e in obs.log if e[3] == 'run_if' and e[4] == p[0]][-1:] == ['False']
+              and len([e for e in obs.log if e[3] == 'run_if' and e[4] == p[0]]) >
+              len([e for e in obs.log if e[3] == 'body_start' and e[4] == p[0]])):
+          # the retry after the timeout was itself skipped because run_if (asked again) said no
+          causes.add('timeout_retry_skipped_by_run_if')
         else:
           causes.add('other')
-      cause = 'timeout_invocation_retried' if causes == {'timeout_invocation_retried'} else 'other'
+      cause = sorted(causes)[0] if len(causes) == 1 else 'other'
       viols.append(_v('pass_with_failed_phase', cause=cause, phases=bad[:4]))
     for p in rec.phases:
       for mn, meas in (p.measurements or {}).items():
